@@ -172,13 +172,13 @@ impl Property for C13 {
     }
     fn cases(&self, tier: Tier) -> u64 {
         match tier {
-            Tier::Quick => 8_000,
+            Tier::Quick => 80_000,
             Tier::Thorough => 6_000_000,
         }
     }
     fn min_nontrivial(&self, tier: Tier) -> u64 {
         match tier {
-            Tier::Quick => 2_000,
+            Tier::Quick => 16_000,
             Tier::Thorough => 1_200_000,
         }
     }
